@@ -59,7 +59,7 @@ class Case:
         """is the antecedent satisfiable?  ('sat' / 'unsat' / 'unknown')"""
         key = tuple(a.get_id() for a in assumptions)
         if key not in self._witness_cache:
-            self._witness_cache[key] = CTX.check(list(assumptions), timeout=min(self.qtimeout, 10000))
+            self._witness_cache[key] = CTX.check(list(assumptions), timeout=min(self.qtimeout, 4000))
         return self._witness_cache[key]
 
     def oblige(self, name, assumptions, negated, on_model=None, inputs=None, timeout=None, lemmas=(), sample=None, nice=True, quat_groups=()):
